@@ -29,6 +29,7 @@ def run(ctx):
     r2_terminator_prefixes(ctx)
     r3_framing(ctx)
     r4_arff_keywords(ctx)
+    r5_quote_symmetry(ctx)
 
 
 def _nested(fn, name):
@@ -186,10 +187,51 @@ def r4_arff_keywords(ctx):
     ctx.ob("C12.R4", RDR, "ArffAttrReader.filter", flt, "@attribute is matched case-insensitively", ok, stmt="@attribute keyword")
 
 
+def r5_quote_symmetry(ctx):
+    ctx.rule("C12.R5", "ArffLineReader._dense_simple treats the two quote characters symmetrically: each has its own independent `if <q> in line` block "
+                       "and the two blocks are identical up to the quote character (sibling cross-check)")
+    fn = ctx.fn(RDR, "ArffLineReader._dense_simple")
+    blocks = []
+    for st in fn.body:
+        if isinstance(st, ast.If) and isinstance(st.test, ast.Compare) and isinstance(st.test.ops[0], ast.In) and const_str(st.test.left) in ('"', "'") \
+                and unparse(st.test.comparators[0]) == "line":
+            blocks.append((const_str(st.test.left), st))
+    nested = [x for x in walk_shallow(fn) if isinstance(x, ast.If) and isinstance(x.test, ast.Compare) and isinstance(x.test.ops[0], ast.In)
+              and const_str(x.test.left) in ('"', "'") and unparse(x.test.comparators[0]) == "line"]
+    ctx.floor("C12.R5", "quote tests in _dense_simple", len(nested), 2)
+    ok = len(blocks) == 2 and {q for q, _ in blocks} == {'"', "'"} and len(nested) == 2
+    if ok:
+        import copy
+
+        def norm(q, st):
+            c = copy.deepcopy(st)
+            for n in ast.walk(c):
+                if isinstance(n, ast.Constant) and n.value == q:
+                    n.value = "Q"
+                if hasattr(n, "_parent"):
+                    del n._parent
+            return ast.unparse(c)
+        ok = norm(*blocks[0]) == norm(*blocks[1]) and not blocks[0][1].orelse and not blocks[1][1].orelse
+    ctx.ob("C12.R5", RDR, "ArffLineReader._dense_simple", blocks[0][1] if blocks else fn, "double and single quotes are each checked on every line, by identical logic", ok,
+           detail={"independent_blocks": [q for q, _ in blocks], "quote_tests_found": len(nested)}, stmt="quote blocks")
+
+
 CONTROLS = [
+    ("quote checks chained", RDR, lambda tree: _chain_quote_ifs(tree), "C12.R5"),
     ("decompressor per chunk", SRC, M.replace_expr("HttpSource._byte_it_", "decomp(chunk)", "zlib.decompressobj(16 + zlib.MAX_WBITS).decompress(chunk)"), "C12.R1"),
     ("utf-8 keyword case sensitive", RDR, M.replace_expr("ArffAttrReader._encoder", "encoding.lower() in numeric_types", "encoding in numeric_types"), "C12.R4"),
     ("drop relational", RDR, M.replace_expr("ArffAttrReader._encoder", "('string', 'date', 'relational')", "('string', 'date')"), "C12.R4"),
     ("two terminators", SNK, M.replace_expr("DiskSink.write", "line + '\\n'", "line + '\\r\\n\\n'"), "C12.R3"),
     ("reader strips spaces", SRC, M.replace_expr("DiskSource.read", "line.rstrip('\\r\\n')", "line.strip()"), "C12.R3"),
 ]
+
+
+def _chain_quote_ifs(tree):
+    from ..mutate import find_def, TargetMissing
+    fn = find_def(tree, "ArffLineReader._dense_simple")
+    ifs = [i for i, st in enumerate(fn.body) if isinstance(st, ast.If) and isinstance(st.test, ast.Compare) and isinstance(st.test.left, ast.Constant) and st.test.left.value in ('"', "'")]
+    if len(ifs) != 2:
+        raise TargetMissing("two quote ifs")
+    a, b = ifs
+    fn.body[a].orelse = [fn.body[b]]
+    del fn.body[b]
